@@ -70,11 +70,17 @@ def obligations(tier, seed):
         for tr in ("rule:fixes.remove_dead_ifs", "rule:fixes.delete_unreachable_code",
                    "rule:fixes.remove_redundant_boolop_values"):
             obs.append(_ob(sk, _plus(tr), "lit"))
-    c17 = list(families.c17_two_comparisons()) + list(families.c17_constrained_range("quick")) + list(families.c17_redundant_boolop())
-    for sk in (rnd.sample(c17, 80) if quick else c17):
+    c17 = list(families.c17_two_comparisons()) + list(families.c17_constrained_range("quick"))
+    for sk in (rnd.sample(c17, 60) if quick else c17):
         for tr in ("rule:symbolic_math.simplify_boolean_expressions", "rule:symbolic_math.simplify_constrained_range",
-                   "rule:fixes.remove_redundant_boolop_values", "rule:fixes.replace_for_loops_with_set_list_comp"):
+                   "rule:fixes.replace_for_loops_with_set_list_comp"):
             obs.append(_ob(sk, _plus(tr), "lit"))
+    rb = list(families.c17_redundant_boolop())
+    for sk in (rnd.sample(rb, 60) if quick else rb):
+        obs.append(_ob(sk, _plus("rule:fixes.remove_redundant_boolop_values"), "lit"))
+    # a BoolOp in value position: simplify_boolean_expressions folds to True/False (known finding); a fixed dozen
+    for sk in rb[::60]:
+        obs.append(_ob(sk, _plus("rule:symbolic_math.simplify_boolean_expressions"), "boolvalue"))
     return obs
 
 
